@@ -67,6 +67,19 @@ def check(run):
         rows.append({"case": i + 1, "mode": "router", "set": a["set"], "names": names, "table": a["table"], "loc_names": LOC_NAMES,
                      "base_texts": base_texts(a["base"]), "start_path": start, "cur": a["cur"],
                      "switch_seqs": switch_seqs(sorted(names), a["cur"], depth)})
+    # the same URLs with the EXPLICIT prefix of the default locale (/en/about): they read as the default locale too, and a switch
+    # away from them must drop that prefix like any other
+    extra_cases = []
+    for i, c in enumerate(list(cases)):
+        a = c["abs"]
+        if a["cur"] == a["default"] and i % 3 == 0:
+            segs = list(a["base"]) + [a["names"][a["cur"]]] + list(a["rest"])
+            row = dict(rows[i])
+            row["case"] = len(cases) + len(extra_cases) + 1
+            row["start_path"] = "/" + "/".join(segs)
+            rows.append(row)
+            extra_cases.append(c)
+    cases = cases + extra_cases
     # the real I18nRoute: one case per (locale set, table, base), URLs enumerated by MC_Routes
     rcases, _ = loadfam.gen_cases(run, "MC_Routes", "MC_Routes_%s.cfg" % run.tier, workers=1, timeout=3600)
     if len(rcases) != 12:
